@@ -44,8 +44,13 @@ type written struct {
 	ymlText  string
 }
 
+// All cases of a process use ONE directory and the same file names (x.hcl, x.yaml, the data files): every case is
+// an "edit the description and load it again" step, as a long-lived process (or a test suite) does it. A front-end
+// that remembers anything by file name shows up as the HCL or the YAML side lagging behind the file.
+var caseDir = pand.TempName("c16", "")
+
 func write(m sg.Model) (*written, error) {
-	w := &written{dir: pand.TempName("c16", "")}
+	w := &written{dir: caseDir}
 	w.m = m.Rebase(w.dir)
 	fs := pand.FS()
 	if err := fs.MkdirAll(w.dir, 0o755); err != nil {
@@ -309,7 +314,7 @@ func classify(m sg.Model, obs *vf.Obs) {
 	}
 	fn := map[string]bool{}
 	declared := map[string]bool{}
-	refersEarlier, redeclared, tmpl, attrRef := false, false, false, false
+	refersEarlier, redeclared, tmpl, attrRef, overridden := false, false, false, false, false
 	for bi, b := range m.Locals {
 		names := []string{}
 		for _, l := range b.Locals {
@@ -324,6 +329,7 @@ func classify(m sg.Model, obs *vf.Obs) {
 			if declared[l.Name] {
 				redeclared = true
 			}
+			overridden = overridden || l.Override
 			names = append(names, l.Name)
 		}
 		for _, n := range names {
@@ -344,6 +350,7 @@ func classify(m sg.Model, obs *vf.Obs) {
 	}
 	o.ClassIf(refersEarlier, "local_refers_to_earlier_block")
 	o.ClassIf(redeclared, "local_redeclared")
+	o.ClassIf(overridden, "local_overridden_by_later_block")
 	o.ClassIf(tmpl, "template_interpolation")
 	o.ClassIf(attrRef, "attr_refers_to_local")
 	o.ClassIf(len(m.Exprs) > 0, "attr_expression")
